@@ -22,14 +22,18 @@ for p in props:
     if only and pid not in only:
         continue
     avoid = []
-    for m in sorted(glob.glob(f'/verif/seeded/{pid}-*/meta.json')):
+    for sd in sorted(glob.glob(f'/verif/seeded/{pid}-*')):
+        m = sd + '/meta.json'
+        if not os.path.exists(m):
+            m = sd + '/agent_meta.json'
         s = json.load(open(m)).get('summary', '')
         avoid.append(s[:400])
     if pid in extra_avoid:
         avoid.append(extra_avoid[pid])
     d = f'{root}/{pid}'
     os.makedirs(d + '/demo', exist_ok=True)
-    subprocess.run(['git', '-C', '/repo', 'worktree', 'add', '-q', '--detach', d + '/wt', 'HEAD'], check=True)
+    if not os.path.exists(d + '/wt'):
+        subprocess.run(['git', '-C', '/repo', 'worktree', 'add', '-q', '--detach', d + '/wt', 'HEAD'], check=True)
     open(d + '/demo/go.mod', 'w').write(f'''module demo
 
 go 1.21
